@@ -242,7 +242,7 @@ def generate(rng):
             emit(op, actor)
         elif kind == "quant":
             qk = rng.wchoice([("payoff", 2), ("feature", 5), ("listed_spot", 3), ("bs_bound", 2), ("bs_explicit", 2),
-                              ("autogreek", 1), ("criterion", 2), ("functional", 2), ("pl_view", 1), ("crit_on_pl", 1)])
+                              ("autogreek", 1), ("criterion", 4), ("functional", 2), ("pl_view", 1), ("crit_on_pl", 1)])
             if qk in ("payoff", "feature", "listed_spot", "bs_bound", "pl_view", "crit_on_pl"):
                 cands = [d for d in derivs if sim[d["underlier"]] is not None and not too_short(d)]
                 if qk == "listed_spot":
@@ -281,7 +281,7 @@ def generate(rng):
                     rng, "cx", ["EntropicRiskMeasure", "ExpectedShortfall", "QuadraticCVaR", "EntropicLoss",
                                 "IsoelasticLoss", "OCE", "UserES", "UserMeanStd"]),
                       "n": rng.randint(1, 6), "cols": rng.choice([0, 0, 2]), "seed": rng.seed31(),
-                      "target": rng.choice(["none", "float", "tensor"]), "cash": rng.chance(0.5)}, actor)
+                      "target": rng.choice(["none", "float", "tensor", "tensor"]), "cash": rng.chance(0.6)}, actor)
             else:
                 emit({"op": "quant", "kind": qk, "fn": rng.choice(FUNCS), "n": rng.randint(1, 4),
                       "t": rng.randint(2, 6), "seed": rng.seed31(), "dtype": rng.choice(["float32", "float64"])}, actor)
